@@ -28,6 +28,22 @@ def command_registry(repo):
     return out
 
 
+def check_prompt_turns(ctx, rule):
+    """each turn of the prompt loop reads one line and hands exactly that line - whole and as typed - to the command dispatcher (which is where
+    pasted colour is stripped, C17.5: anything done to the text before that sees the escape sequences)"""
+    repo = ctx.repo
+    f_run = repo.func('TerminalUI.run_until_stopped')
+    n = 0
+    for p in paths_of(repo, f_run, while_unroll=1):
+        pr = [(i, e) for i, e in enumerate(p.events) if e.kind == 'call' and e.ftext == 'self.input_func']
+        pc = [(i, e) for i, e in enumerate(p.events) if e.kind == 'call' and e.ftext == 'self.command_sink.process_command']
+        n += len(pc)
+        ctx.check(len(pr) == len(pc) and all(a[0] < b[0] and norm(b[1].args[0]).startswith('self.input_func(') for a, b in zip(pr, pc)),
+                  rule, 'prompt-loop:one-prompt-one-command', f_run.loc(), 'each turn reads one line and processes exactly that line',
+                  'turn structure is %s' % [e.text[:40] for _, e in pr + pc])
+    ctx.floor(rule, n, 1, 'command dispatch in the prompt loop')
+
+
 def run(ctx):
     repo = ctx.repo
     cg = repo.callgraph()
@@ -232,9 +248,7 @@ def run(ctx):
         pc = [(i, e) for i, e in enumerate(p.events) if e.kind == 'call' and e.ftext == 'self.command_sink.process_command']
         ctx.check(len(pa) == 1 and not p.events[pa[0]].loops and all(pa[0] < i for i, _ in pr), 'C10.7', 'prompt-loop:pause-first', f_run.loc(),
                   'the loop starts from the paused state')
-        ctx.check(len(pr) == len(pc) and all(a[0] < b[0] and norm(b[1].args[0]).startswith('self.input_func(') for a, b in zip(pr, pc)),
-                  'C10.7', 'prompt-loop:one-prompt-one-command', f_run.loc(), 'each turn reads one line and processes exactly that line',
-                  'turn structure is %s' % [e.text[:40] for _, e in pr + pc])
+    check_prompt_turns(ctx, 'C10.7')
     # ---- C10.8 a typed command reaches its handler ---------------------------------------------------------------------
     # `resume` continues and `quit` quits only if the command line gets from the prompt to the handler: the findings of the command
     # dispatcher's own rules (nothing escapes process_command - C18.5; pasted colour is stripped before tokenising - C17.5) are findings here
